@@ -344,12 +344,8 @@ pub(crate) fn blend<S: Sample>(
         new_grid.buffer_mut()[idx].convert_to_float_modular(bit_depth)?;
 
         let mut blend_params = if clone_empty {
-            let new_alpha = alpha_idx.map(|idx| {
-                new_grid.buffer()[idx + color_channels]
-                    .as_float()
-                    .unwrap()
-                    .as_subgrid()
-            });
+            let new_alpha = alpha_idx
+                .map(|idx| aligned_alpha(new_grid, idx + color_channels, original_frame_region));
             let premultiplied =
                 alpha_idx.and_then(|idx| image_header.metadata.ec_info[idx].alpha_associated());
             BlendParams::from_blending_info(
@@ -361,12 +357,8 @@ pub(crate) fn blend<S: Sample>(
                 premultiplied,
             )
         } else {
-            let new_alpha = alpha_idx.map(|idx| {
-                new_grid.buffer()[idx + color_channels]
-                    .as_float()
-                    .unwrap()
-                    .as_subgrid()
-            });
+            let new_alpha = alpha_idx
+                .map(|idx| aligned_alpha(new_grid, idx + color_channels, original_frame_region));
             let premultiplied =
                 alpha_idx.and_then(|idx| image_header.metadata.ec_info[idx].alpha_associated());
             BlendParams::from_blending_info(
@@ -413,6 +405,24 @@ pub(crate) fn blend<S: Sample>(
 
     output_grid.set_blend_done(true);
     Ok(output_grid)
+}
+
+/// Returns the alpha plane of `grid`, positioned so that its origin is the origin of `region`.
+///
+/// Planes of a frame do not always cover the same region; color planes may be cropped by
+/// restoration filters while extra channels are not.
+fn aligned_alpha(
+    grid: &ImageWithRegion,
+    alpha_idx: usize,
+    region: Region,
+) -> SharedSubgrid<'_, f32> {
+    let alpha_region = grid.regions_and_shifts()[alpha_idx].0;
+    let alpha = grid.buffer()[alpha_idx].as_float().unwrap().as_subgrid();
+    let left = (region.left - alpha_region.left).max(0) as usize;
+    let top = (region.top - alpha_region.top).max(0) as usize;
+    let left = left.min(alpha.width());
+    let top = top.min(alpha.height());
+    alpha.subgrid(left.., top..)
 }
 
 pub fn patch(
